@@ -273,6 +273,11 @@ namespace AIToolbox::MDP {
     }
 
     template <IsGenerativeModel M>
+    void Dyna2<M>::setN(const unsigned n) {
+        N = n;
+    }
+
+    template <IsGenerativeModel M>
     unsigned Dyna2<M>::getN() const {
         return N;
     }
